@@ -287,7 +287,12 @@ def multinet_series(ctx, n_nets, n_steps):
             prof.loc[steps[len(steps) // 2], "eg_p"] = float("nan")
         gas, power = copy.deepcopy(gas0), copy.deepcopy(power0)
         mn = create_empty_multinet("c13")
-        add_nets_to_multinet(mn, power=power, gas=gas)
+        # both orders of the member nets occur (with and without a diverging step)
+        gas_first = (series // 2) % 2 == 1
+        if gas_first:
+            add_nets_to_multinet(mn, gas=gas, power=power)
+        else:
+            add_nets_to_multinet(mn, power=power, gas=gas)
         ds = DFData(prof)
         # which couplings are present: the gas net may or may not have another controller that touches it
         variant = ["g2p", "g2p+p2g", "g2p+p2g+sink", "p2g"][series % 4]      # by completed series: every variant occurs
@@ -305,7 +310,7 @@ def multinet_series(ctx, n_nets, n_steps):
             ConstControl(gas, "sink", "mdot_kg_per_s", other[0], profile_name="sink_m", data_source=ds)
         ow_g = OutputWriter(gas, steps, output_path=None, log_variables=list(gas_log))
         ow_p = OutputWriter(power, steps, output_path=None, log_variables=[("res_bus", "vm_pu"), ("res_sgen", "p_mw")])
-        replay = {"gas_spec": spec, "variant": variant, "options": opts, "diverging": diverging, "p2g_source_junction": src_j, "g2p_sink": g2p_sink, "eff": [eff_g2p, eff_p2g],
+        replay = {"gas_spec": spec, "variant": variant, "options": opts, "diverging": diverging, "gas_first": gas_first, "p2g_source_junction": src_j, "g2p_sink": g2p_sink, "eff": [eff_g2p, eff_p2g],
                   "profile": json.loads(prof.to_json()), "steps": steps}
         # stand-alone calculations first: fresh nets carrying the row and the gas flows that follow from it
         refs, feasible = {}, True
@@ -349,13 +354,19 @@ def multinet_series(ctx, n_nets, n_steps):
         series += 1
         ok = True
         par = ow_g.output.get("Parameters")
+        par_p = ow_p.output.get("Parameters")
         for t in steps:
-            flag = bool(par.loc[t, "powerflow_failed"]) if par is not None and t in par.index else None
-            if isinstance(flag, bool) and flag != (refs[t] is None) and ok:
-                ok = False
-                ctx.violation({"kind": "multinet-ts-divergence-flag"},
-                              "multinet time series, step %d: gas powerflow_failed=%r but the stand-alone calculation %s"
-                              % (t, flag, "fails" if refs[t] is None else "converges"), replay)
+            # the verdict of a step is step-wide (model: mloop logs None for the step iff the stand-alone calculation
+            # of ANY member net fails): every member net's output writer must carry the same failed / valid flag
+            for nm, pr_ in (("gas", par), ("power", par_p)):
+                flag = bool(pr_.loc[t, "powerflow_failed"]) if pr_ is not None and t in pr_.index else None
+                if isinstance(flag, bool) and flag != (refs[t] is None) and ok:
+                    ok = False
+                    ctx.violation({"kind": "multinet-ts-divergence-flag", "net": nm},
+                                  "multinet time series (nets in order %s), step %d: %s net logs powerflow_failed=%r but "
+                                  "the stand-alone calculation of the coupled nets %s"
+                                  % ("gas, power" if gas_first else "power, gas", t, nm, flag,
+                                     "fails (gas net infeasible)" if refs[t] is None else "converges"), replay)
             if refs[t] is None:
                 rows += 1
                 ctx.count("multinet_diverging_steps")
@@ -384,6 +395,7 @@ def multinet_series(ctx, n_nets, n_steps):
         ctx.case({"kind": "multinet", "variant": variant, "options": opts, "gas": gen.describe(spec), "steps": steps,
                   "eff": [eff_g2p, eff_p2g]}, True)
         ctx.count("multinet_" + variant)
+        ctx.count("multinet_gas_first" if gas_first else "multinet_power_first")
         ctx.count("multinet_series")
     return rows, series
 
